@@ -243,7 +243,7 @@ class Check:
         self.bounds.append(b)
         if capped:
             self.exhaustive = False
-        always = {"crash", "hang", "exception"}
+        always = {"crash", "crash-after-case", "hang", "exception"}
         n_listed = 0
         for v in r.get("violations", []):
             if classes is not None and v.get("class") not in classes and v.get("class") not in always:
